@@ -40,8 +40,8 @@ def obligations(tier):
                  ("KC", dict(period=3)), ("Supertrend", dict(period=3)), ("MACD", dict(fast_period=2, slow_period=3, signal_period=2)), ("TSI", dict(period=2, smooth_period=2)),
                  ("Counter", dict(input_value="positive"))]
     for name, kw in recursive:
-        if tier == "quick" and name in ("RSI", "Supertrend"):
-            dense, sparse = 5, 2
+        if tier == "quick":
+            dense, sparse = (5, 2)
         else:
             dense, sparse = 6, 3
         obs.append(Ob(f"readings-density-drop/{spec_name(('ind', name, kw))}/dense={dense}/sparse={sparse}", dict(spec=["ind", name, kw], dense=dense, sparse=sparse), CFG, fn="run_density",
